@@ -25,6 +25,10 @@ def run(ctx):
                        'enabled events of the real engine with injection profiles [pause, pause, operator] (both scheduler types); '
                        'distinct = distinct (program, event list); non-trivial = at least 6 events')
     et.trace_suite(ctx, ['C10'], ['pause', 'pause', 'operator'], 220, 3000, suite='engine_trace_C10')
+    # feature level (with-items, retry / wait / timeout, sub-workflows, data flow), real engine, oracle only:
+    # quiescent => final, no lost message, no internal error; for C10 also: runs with pause/resume end like runs without
+    from harness import engine_explore as ee
+    ee.explore(ctx, ['C10', 'C01'], ee.FEATURES, ctx.n(30, 300), 4, suite='engine_explore_C10')
 
 
 def search(ctx):
